@@ -6,7 +6,8 @@
 //!   * a MALFORMED one (cell cut short / range with last <= first / negative shard / garbage / empty cell) inside a
 //!     well-formed custom-payload map,
 //!   * a custom payload without the tablets key, or no custom payload at all.
-//! One more request is an UNPREPARED query (no bind values, so a plain QUERY frame) answered with a well-formed tablet
+//! A fifth of the steps are first answered UNPREPARED, so that the teaching response is the one of the re-execution after
+//! the transparent re-prepare (the second call site, connection.rs:1136-1140). One more request is an UNPREPARED query (no bind values, so a plain QUERY frame) answered with a well-formed tablet
 //! payload for a range nothing else teaches. Then the published `ClusterState` is polled (at most 2 s) until it shows
 //! what the shadow expects.
 //!
@@ -20,14 +21,14 @@
 //! Not covered: a full tablet channel (capacity 8192; `send().await` vs `try_send` cannot be told apart below that).
 use super::common::*;
 use crate::mockcluster::*;
-use crate::mocknode::{Parsed, RESP_RESULT, body_void};
+use crate::mocknode::{Parsed, RESP_ERROR, RESP_RESULT, body_unprepared, body_void};
 use crate::rng::Rng;
 use crate::{Ctx, Tier};
 use std::sync::Arc;
 use std::time::Duration;
 
 pub fn generate(rng: &mut Rng, tier: Tier, emit: &mut dyn FnMut(String)) {
-    let n_cases = if tier == Tier::Quick { 12 } else { 120 };
+    let n_cases = if tier == Tier::Quick { 40 } else { 160 };
     for _ in 0..n_cases {
         emit(format!("e2e learn n={} seed={} steps={}", 1 + rng.below(3), rng.below(1 << 32), 8 + rng.below(if tier == Tier::Quick { 17 } else { 33 })));
     }
@@ -49,6 +50,9 @@ enum Teach {
 struct Step {
     table: usize,
     teach: Teach,
+    /// the first EXECUTE of this step is answered UNPREPARED: the driver re-prepares and executes again, and it is the
+    /// SECOND response (the other call site of `update_tablets_from_response`, connection.rs:1136-1140) that teaches
+    reprepare: bool,
 }
 
 fn insert_text(table: &str) -> String {
@@ -158,7 +162,8 @@ pub fn run(words: &[&str], ctx: &mut Ctx) -> String {
             8 => Teach::OtherKeyOnly,
             _ => Teach::NoPayload,
         };
-        steps.push(Step { table, teach });
+        let reprepare = rng.chance(1, 5);
+        steps.push(Step { table, teach, reprepare });
     }
 
     // what the shadow expects, per table
@@ -181,6 +186,7 @@ pub fn run(words: &[&str], ctx: &mut Ctx) -> String {
 
     let ids: Vec<Vec<u8>> = TABLES.iter().map(|t| stmt_id(&insert_text(t))).collect();
     let (steps_h, nodes_h, ids_h) = (steps.clone(), nodes.clone(), ids.clone());
+    let mut refused: std::collections::HashSet<usize> = std::collections::HashSet::new();
     let handler: ClusterHandler = Box::new(move |r: &Req| match &r.parsed {
         Parsed::Prepare { text } => {
             // `INSERT INTO ks.<table> (pk, v) VALUES (?, ?)`: the metadata names THAT table
@@ -196,6 +202,9 @@ pub fn run(words: &[&str], ctx: &mut Ctx) -> String {
             let Some(step) = steps_h.get(i) else { return vec![act_void()] };
             if *id != ids_h[step.table] {
                 return vec![act_void()];
+            }
+            if step.reprepare && refused.insert(i) {
+                return vec![Act::Respond(RESP_ERROR, body_unprepared(id))];
             }
             match &step.teach {
                 Teach::Valid(a, b, r) => {
@@ -292,6 +301,18 @@ pub fn run(words: &[&str], ctx: &mut Ctx) -> String {
         let taught = steps.iter().filter(|s| matches!(s.teach, Teach::Valid(..))).count();
         let malformed = steps.iter().filter(|s| matches!(s.teach, Teach::Malformed(_))).count();
         let _ = Arc::new(());
-        format!("learn steps={} taught={} malformed={} failed={} probes={} wrong={}", steps.len(), taught, malformed, failed, probes.len() * TABLES.len(), bad.len())
+        let reprepared = steps.iter().filter(|s| s.reprepare).count();
+        let taught_after_reprepare = steps.iter().filter(|s| s.reprepare && matches!(s.teach, Teach::Valid(..))).count();
+        format!(
+            "learn steps={} taught={} malformed={} reprepared={} taught-after-reprepare={} failed={} probes={} wrong={}",
+            steps.len(),
+            taught,
+            malformed,
+            reprepared,
+            taught_after_reprepare,
+            failed,
+            probes.len() * TABLES.len(),
+            bad.len()
+        )
     })
 }
